@@ -1,20 +1,17 @@
 #!/usr/bin/env python3
-"""Print the markdown table of the seeded changes kept under /verif/seeded (for DESIGN.md)."""
+"""Markdown table of the seeded changes kept under /verif/seeded.
+   seeded_table.py                 print it
+   seeded_table.py --update-design rewrite the section between the SEEDED-TABLE markers of DESIGN.md"""
 import glob
 import json
 import os
 import re
+import sys
 
 VERIF = os.path.dirname(os.path.dirname(os.path.dirname(os.path.abspath(__file__))))
-rows = []
-for d in sorted(glob.glob(os.path.join(VERIF, 'seeded', '*'))):
-    try:
-        m = json.load(open(os.path.join(d, 'meta.json')))
-    except Exception:
-        continue
-    c = m.get('confirmed_by_main_session', {})
-    chk = c.get('check', {})
-    how = 'failing input' if chk.get('with_failing_input') else ('no-failing-input-found' if chk.get('caught') else 'MISSED')
+
+
+def stages(chk):
     line = ' '.join(chk.get('lines', []))
     g = re.search(r'prove=(\w+).*mismatches=(\d+) spec_failures=(\d+)', line)
     by = []
@@ -25,14 +22,48 @@ for d in sorted(glob.glob(os.path.join(VERIF, 'seeded', '*'))):
             by.append('CORR %s' % g.group(2))
         if int(g.group(3)):
             by.append('monitor %s' % g.group(3))
-    first = c.get('first_run_before_strengthening', {}).get('check', c.get('first_run_before_strengthening', {}))
-    note = ''
-    if first and not first.get('with_failing_input', True):
-        note = 'missed at first' if not first.get('caught') else 'at first without failing input'
-    rows.append('| %s | %s | %s | %s | %s | %s |' % (
-        os.path.basename(d),
-        str(m.get('summary', '')).replace('|', '/').replace('\n', ' ')[:150],
-        str(m.get('needs', '')).replace('|', '/').replace('\n', ' ')[:110], how, ', '.join(by), note))
-print('| seeded change | what was changed | needs | `check.py <ID> --quick` | raised by | history |')
-print('|---|---|---|---|---|---|')
-print('\n'.join(rows))
+    return ', '.join(by)
+
+
+def verdict(chk):
+    if chk.get('with_failing_input'):
+        return 'failing input'
+    return 'no-failing-input-found' if chk.get('caught') else 'MISSED'
+
+
+def table():
+    rows = []
+    for d in sorted(glob.glob(os.path.join(VERIF, 'seeded', '*'))):
+        try:
+            m = json.load(open(os.path.join(d, 'meta.json')))
+        except Exception:
+            continue
+        c = m.get('confirmed_by_main_session', {})
+        chk = c.get('check', {})
+        first = c.get('first_run_before_strengthening', {})
+        first = first.get('check', first)
+        note = ''
+        if first and not first.get('with_failing_input', True):
+            note = 'missed at first' if not first.get('caught') else 'at first without failing input'
+        cross = '; '.join('%s: %s' % (p, verdict(v)) for p, v in sorted(c.get('cross_checks', {}).items()))
+        rows.append('| %s | %s | %s | %s | %s | %s | %s |' % (
+            os.path.basename(d),
+            str(m.get('summary', '')).replace('|', '/').replace('\n', ' ')[:170],
+            str(m.get('needs', '')).replace('|', '/').replace('\n', ' ')[:130], verdict(chk), stages(chk), cross, note))
+    head = ('| seeded change | what was changed | needs | own check, quick tier | raised by | other checks | history |\n'
+            '|---|---|---|---|---|---|---|\n')
+    return head + '\n'.join(rows) + '\n'
+
+
+if __name__ == '__main__':
+    t = table()
+    if '--update-design' in sys.argv:
+        p = os.path.join(VERIF, 'DESIGN.md')
+        s = open(p).read()
+        a, b = '<!-- SEEDED-TABLE-BEGIN -->', '<!-- SEEDED-TABLE-END -->'
+        if a not in s:
+            sys.exit('markers not found in DESIGN.md')
+        s = s[:s.index(a) + len(a)] + '\n' + t + s[s.index(b):]
+        open(p, 'w').write(s)
+    else:
+        print(t)
